@@ -43,17 +43,23 @@ pub fn chunk_index_to_address(chunk: usize) -> Address {
 }
 
 /// Align up an integer to the given alignment. `align` must be a power of two.
+#[cfg_attr(kani, kani::requires(crate::verif_contracts::align::pre_raw_align_up(val, align)))]
+#[cfg_attr(kani, kani::ensures(|r: &usize| crate::verif_contracts::align::post_raw_align_up(val, align, *r)))]
 pub const fn raw_align_up(val: usize, align: usize) -> usize {
     // See https://github.com/rust-lang/rust/blob/e620d0f337d0643c757bab791fc7d88d63217704/src/libcore/alloc.rs#L192
     val.wrapping_add(align).wrapping_sub(1) & !align.wrapping_sub(1)
 }
 
 /// Align down an integer to the given alignment. `align` must be a power of two.
+#[cfg_attr(kani, kani::requires(crate::verif_contracts::align::pre_raw_align_down(val, align)))]
+#[cfg_attr(kani, kani::ensures(|r: &usize| crate::verif_contracts::align::post_raw_align_down(val, align, *r)))]
 pub const fn raw_align_down(val: usize, align: usize) -> usize {
     val & !align.wrapping_sub(1)
 }
 
 /// Is the integer aligned to the given alignment? `align` must be a power of two.
+#[cfg_attr(kani, kani::requires(crate::verif_contracts::align::pre_raw_is_aligned(val, align)))]
+#[cfg_attr(kani, kani::ensures(|r: &bool| crate::verif_contracts::align::post_raw_is_aligned(val, align, *r)))]
 pub const fn raw_is_aligned(val: usize, align: usize) -> bool {
     val & align.wrapping_sub(1) == 0
 }
@@ -89,6 +95,8 @@ pub fn bytes_to_formatted_string(bytes: usize) -> String {
 ///
 /// This function has undefined behavior if `bits` is greater or equal to the number of bits in
 /// `usize`.
+#[cfg_attr(kani, kani::requires(crate::verif_contracts::align::pre_rshift_align_up(num, bits)))]
+#[cfg_attr(kani, kani::ensures(|r: &usize| crate::verif_contracts::align::post_rshift_align_up(num, bits, *r)))]
 pub const fn rshift_align_up(num: usize, bits: usize) -> usize {
     (num + ((1 << bits) - 1)) >> bits
 }
